@@ -19,6 +19,11 @@
 #ifdef BUILD_LISTENERS
 #include "solver_listener.h"
 #endif
+#ifdef VERIF_EXECUTOR
+#include "executor.h"
+#include "executor_listener.h"
+#include <random>
+#endif
 #include "vjson.h"
 #include <chrono>
 #include <csignal>
@@ -484,6 +489,125 @@ static void dump_solution(solver &s, double secs)
     }
 }
 
+#ifdef VERIF_EXECUTOR
+// ---- executor mode (C19): tick-by-tick execution with a scripted client -------------------------------------------------
+struct exec_client : public executor_listener
+{
+    solver &s;
+    executor &ex;
+    std::mt19937 rng;
+    int p_delay_start, p_delay_end; // percent
+    std::vector<std::string> events;
+    exec_client(solver &s, executor &ex, unsigned seed, int pds, int pde) : executor_listener(ex), s(s), ex(ex), rng(seed), p_delay_start(pds), p_delay_end(pde) {}
+
+    std::string atoms_with(const std::unordered_set<atom *> &atms, bool start_value)
+    {
+        std::vector<std::pair<int, std::string>> v;
+        for (const auto &a : atms)
+        {
+            arith_expr x = s.is_impulse(*a) ? a->get(RATIO_AT) : (start_value ? a->get(RATIO_START) : a->get(RATIO_END));
+            v.emplace_back(id_of(a), js(s.arith_value(x)));
+        }
+        std::sort(v.begin(), v.end());
+        std::string o = "[";
+        for (size_t i = 0; i < v.size(); ++i)
+            o += (i ? ",[" : "[") + std::to_string(v[i].first) + "," + v[i].second + "]";
+        return o + "]";
+    }
+    void log(const std::string &l) { events.push_back(l); }
+    void tick(const smt::rational &time) override { log("{\"e\":\"x_tick\",\"time\":" + js(time) + "}"); }
+    void starting(const std::unordered_set<atom *> &atms) override
+    {
+        log("{\"e\":\"x_starting\",\"atoms\":" + atoms_with(atms, true) + "}");
+        std::unordered_map<const atom *, smt::rational> req;
+        std::string r = "[";
+        for (const auto &a : atms)
+            if ((int)(rng() % 100) < p_delay_start)
+            {
+                const long d = 1 + (long)(rng() % 2);
+                req.emplace(a, smt::rational(d));
+                r += (r.size() > 1 ? ",[" : "[") + std::to_string(id_of(a)) + "," + std::to_string(d) + "]";
+            }
+        if (!req.empty())
+        {
+            log("{\"e\":\"x_dont_start\",\"req\":" + r + "]}");
+            ex.dont_start_yet(req);
+        }
+    }
+    void start(const std::unordered_set<atom *> &atms) override { log("{\"e\":\"x_start\",\"atoms\":" + atoms_with(atms, true) + "}"); }
+    void ending(const std::unordered_set<atom *> &atms) override
+    {
+        log("{\"e\":\"x_ending\",\"atoms\":" + atoms_with(atms, false) + "}");
+        std::unordered_map<const atom *, smt::rational> req;
+        std::string r = "[";
+        for (const auto &a : atms)
+            if ((int)(rng() % 100) < p_delay_end)
+            {
+                const long d = 1 + (long)(rng() % 2);
+                req.emplace(a, smt::rational(d));
+                r += (r.size() > 1 ? ",[" : "[") + std::to_string(id_of(a)) + "," + std::to_string(d) + "]";
+            }
+        if (!req.empty())
+        {
+            log("{\"e\":\"x_dont_end\",\"req\":" + r + "]}");
+            ex.dont_end_yet(req);
+        }
+    }
+    void end(const std::unordered_set<atom *> &atms) override { log("{\"e\":\"x_end\",\"atoms\":" + atoms_with(atms, false) + "}"); }
+};
+
+static std::vector<atom *> relevant_atoms(solver &s)
+{ // the active interval / impulse atoms
+    std::vector<atom *> res;
+    std::set<atom *> seen;
+    std::queue<const type *> q;
+    std::vector<const predicate *> preds;
+    for (const auto &[n, p] : s.get_predicates())
+        preds.push_back(p);
+    for (const auto &[n, t] : s.get_types())
+        if (!t->is_primitive())
+            q.push(t);
+    std::set<const type *> visited;
+    while (!q.empty())
+    {
+        const type *t = q.front();
+        q.pop();
+        if (!visited.insert(t).second)
+            continue;
+        for (const auto &[n, p] : t->get_predicates())
+            preds.push_back(p);
+        for (const auto &[n, st] : t->get_types())
+            q.push(st);
+    }
+    for (const auto &p : preds)
+        if (s.is_impulse(*p) || s.is_interval(*p))
+            for (const auto &ai : p->get_instances())
+            {
+                atom *a = static_cast<atom *>(&*ai);
+                if (s.get_sat_core().value(a->get_sigma()) == True && seen.insert(a).second)
+                    res.push_back(a);
+            }
+    return res;
+}
+static void emit_plan(solver &s, executor &ex)
+{
+    std::vector<std::pair<int, std::string>> v;
+    for (const auto &a : relevant_atoms(s))
+    {
+        const bool imp = s.is_impulse(*a);
+        arith_expr st = imp ? a->get(RATIO_AT) : a->get(RATIO_START);
+        arith_expr en = imp ? a->get(RATIO_AT) : a->get(RATIO_END);
+        v.emplace_back(id_of(a), "{\"id\":" + std::to_string(id_of(a)) + ",\"imp\":" + (imp ? "1" : "0") + ",\"s\":" + js(s.arith_value(st)) + ",\"e\":" + js(s.arith_value(en)) + "}");
+    }
+    std::sort(v.begin(), v.end());
+    std::string o = "{\"e\":\"x_plan\",\"t\":" + js(ex.get_current_time()) + ",\"atoms\":[";
+    for (size_t i = 0; i < v.size(); ++i)
+        o += (i ? "," : "") + v[i].second;
+    fprintf(g_out, "%s]}\n", o.c_str());
+    fflush(g_out);
+}
+#endif
+
 int main(int argc, char **argv)
 {
     if (argc < 5)
@@ -494,7 +618,24 @@ int main(int argc, char **argv)
     g_out = fopen(argv[1], "w");
     const int timeout_s = atoi(argv[2]);
     g_name = argv[3];
-    std::vector<std::string> files(argv + 4, argv + argc);
+    std::vector<std::string> files;
+    bool exec_mode = false;
+    unsigned x_seed = 1;
+    int x_pds = 0, x_pde = 0, x_pf = 0, x_ticks = 30;
+    for (int i = 4; i < argc; ++i)
+        if (!strcmp(argv[i], "--exec") && i + 5 < argc)
+        {
+            exec_mode = true;
+            x_seed = (unsigned)atol(argv[i + 1]);
+            x_pds = atoi(argv[i + 2]);
+            x_pde = atoi(argv[i + 3]);
+            x_pf = atoi(argv[i + 4]);
+            x_ticks = atoi(argv[i + 5]);
+            i += 5;
+        }
+        else
+            files.push_back(argv[i]);
+    (void)exec_mode; (void)x_seed; (void)x_pds; (void)x_pde; (void)x_pf; (void)x_ticks;
     std::set_terminate(on_terminate);
     signal(SIGABRT, on_signal);
     signal(SIGSEGV, on_signal);
@@ -510,6 +651,10 @@ int main(int argc, char **argv)
     {
         g_phase = "init";
         solver s;
+#ifdef VERIF_EXECUTOR
+        executor ex(s);
+        exec_client xl(s, ex, x_seed, x_pds, x_pde);
+#endif
 #ifdef BUILD_LISTENERS
         graph_listener gl(s);
 #endif
@@ -547,6 +692,71 @@ int main(int argc, char **argv)
 #endif
             alarm(0);
         }
+#ifdef VERIF_EXECUTOR
+        if (exec_mode && verdict == "solved")
+        {
+            g_phase = "execute";
+            std::mt19937 frng(x_seed * 7919u + 13u);
+            emit_plan(s, ex);
+            bool alive = true;
+            for (int t = 0; t < x_ticks && alive; ++t)
+            {
+                alarm(timeout_s);
+                xl.events.clear();
+                try
+                {
+                    // a failure of a not yet ended atom, injected between two ticks
+                    if (x_pf > 0 && (int)(frng() % 100) < x_pf)
+                    {
+                        auto ra = relevant_atoms(s);
+                        if (!ra.empty())
+                        {
+                            atom *victim = ra[frng() % ra.size()];
+                            fprintf(g_out, "{\"e\":\"x_failure\",\"atoms\":[%d]}\n", id_of(victim));
+                            fflush(g_out);
+                            ex.failure({victim});
+                            emit_plan(s, ex);
+                            dump_solution(s, gl, 0);
+                            g_phase = "execute";
+                        }
+                    }
+                    fprintf(g_out, "{\"e\":\"x_call_tick\"}\n");
+                    xl.events.clear();
+                    ex.tick();
+                    bool adapted = false;
+                    for (const auto &e : xl.events)
+                    {
+                        fprintf(g_out, "%s\n", e.c_str());
+                        if (e.find("x_dont_") != std::string::npos)
+                            adapted = true;
+                    }
+                    emit_plan(s, ex);
+                    if (adapted)
+                    {
+                        dump_solution(s, gl, 0);
+                        g_phase = "execute";
+                    }
+                }
+                catch (const execution_exception &)
+                {
+                    for (const auto &e : xl.events)
+                        fprintf(g_out, "%s\n", e.c_str());
+                    fprintf(g_out, "{\"e\":\"x_exception\"}\n");
+                    alive = false;
+                }
+                catch (const unsolvable_exception &)
+                {
+                    for (const auto &e : xl.events)
+                        fprintf(g_out, "%s\n", e.c_str());
+                    fprintf(g_out, "{\"e\":\"x_exception\"}\n");
+                    alive = false;
+                }
+                alarm(0);
+            }
+            fprintf(g_out, "{\"e\":\"x_done\",\"alive\":%d}\n", alive ? 1 : 0);
+            fflush(g_out);
+        }
+#endif
         g_phase = "teardown";
         g_keep.clear();
     }
